@@ -20,7 +20,8 @@
 (*              identities, payloads of those nodes (callable identity,    *)
 (*              args, kwargs rendered by value)>> of every action that     *)
 (*              existed before the step                                    *)
-(* The nodes are described as they are at the END of the case; callable    *)
+(* The nodes are described as they are at the END of the case (before the  *)
+(* union, which rewires in place, for union cases); callable               *)
 (* identities are stable across cases, so names are also compared between  *)
 (* cases (a name stands for one computation, whenever it was built).       *)
 (* TLC evaluates Post on every (case, log).                                *)
@@ -120,11 +121,14 @@ TwiceCases == {[kind |-> "operands", start |-> s, p |-> <<From(s), Op(k1, "", ""
 \* ======================================================================== post-condition
 \* The computation a node denotes, as a term over callable identities: same callable, same static arguments, same inputs (each
 \* input name bound to the term of the parent and the output read).  L is the list of node descriptions the node belongs to
-\* (parents are referred to by the identity `id` of the node object).  Two source nodes with the same payload denote the same
-\* computation whatever they are called; a name must stand for ONE computation.
+\* (parents are referred to by the identity `id` of the node object).  A node without inputs is a SOURCE: from_source makes
+\* every source a node of its own (unique names even for equal payloads), so in Term a source is identified by callable,
+\* arguments and its name: consumers of two different sources are different computations.  Pure forgets the source names: it is
+\* what de-duplication (which may merge sources with equal payloads) has to preserve.
 NodeOf(L, id) == CHOOSE n \in SetOf(L) : n.id = id
-RECURSIVE Term(_, _)
-Term(L, n) == <<n.fid, n.args, n.kwargs, {<<i[1], Term(L, NodeOf(L, i[2])), i[3]>> : i \in SetOf(n.ins)}>>
+RECURSIVE Term(_, _), Pure(_, _)
+Term(L, n) == <<n.fid, n.args, n.kwargs, IF n.ins = <<>> THEN n.name ELSE "", {<<i[1], Term(L, NodeOf(L, i[2])), i[3]>> : i \in SetOf(n.ins)}>>
+Pure(L, n) == <<n.fid, n.args, n.kwargs, {<<i[1], Pure(L, NodeOf(L, i[2])), i[3]>> : i \in SetOf(n.ins)}>>
 Den(L, n) == [name |-> n.name, fname |-> n.fname, fid |-> n.fid, args |-> n.args, kwargs |-> n.kwargs, term |-> Term(L, n)]
 Dens(L) == {Den(L, n) : n \in SetOf(L)}
 CollisionKind(a, b) == IF a.fid # b.fid THEN (IF a.fname = "<lambda>" THEN "different_lambdas" ELSE "different_callables_with_equal_name")
@@ -138,8 +142,8 @@ Post(c, r) ==
  \cup (IF "union" \in DOMAIN c /\ Cardinality(SetOf(r.uninames)) # Len(r.uninames) THEN {"NameInjective:one_name_on_two_nodes_of_a_cascade"} ELSE {})
  \* a union keeps every computation of the united actions, and every name in it still stands for the computation it was given to
  \cup (IF "union" \in DOMAIN c
-       THEN LET P == {<<d.name, d.term>> : d \in Dens(r.pre)}
-                U == {<<d.name, d.term>> : d \in Dens(r.uni)}
+       THEN LET P == {<<n.name, Pure(r.pre, n)>> : n \in SetOf(r.pre)}
+                U == {<<n.name, Pure(r.uni, n)>> : n \in SetOf(r.uni)}
             IN IF {u[2] : u \in U} = {q[2] : q \in P} /\ U \subseteq P THEN {} ELSE {"NameInjective:union_lost_or_rewired_a_computation"}
        ELSE {})
  \cup (IF c.kind # "operands" /\ \E k \in DOMAIN r.steps : r.steps[k].raised THEN {"raised"} ELSE {})
